@@ -99,7 +99,7 @@ func (h *timeoutHandler) ServeHTTP(w http.ResponseWriter, r *http.Request) {
 
 		// We don't need to write header 200, because it's written by default.
 		// If we write it again, it will cause a warning: `http: superfluous response.WriteHeader call`.
-		if tw.code != http.StatusOK {
+		if tw.code != http.StatusOK && !tw.flushed {
 			w.WriteHeader(tw.code)
 		}
 		w.Write(tw.wbuf.Bytes())
@@ -129,6 +129,7 @@ type timeoutWriter struct {
 	mu          sync.Mutex
 	timedOut    bool
 	wroteHeader bool
+	flushed     bool
 	code        int
 }
 
@@ -141,11 +142,24 @@ func (tw *timeoutWriter) Flush() {
 		return
 	}
 
+	tw.mu.Lock()
+	defer tw.mu.Unlock()
+
+	// the timeout response has been written, nothing of the handler may follow it.
+	if tw.timedOut {
+		return
+	}
+
 	header := tw.w.Header()
 	for k, v := range tw.h {
 		header[k] = v
 	}
 
+	// the first flush sends the status line, it must be the one the handler has set.
+	if !tw.flushed && tw.code != http.StatusOK {
+		tw.w.WriteHeader(tw.code)
+	}
+	tw.flushed = true
 	tw.w.Write(tw.wbuf.Bytes())
 	tw.wbuf.Reset()
 	flusher.Flush()
